@@ -175,6 +175,12 @@ for _pid in ("C01", "C06", "C13", "C15"):
     PROPS[_pid]["theorem_modules"] = PROPS[_pid]["theorem_modules"] + ["DecProofs.Properties.C15GenGlue", "DecProofs.Properties.C15GenGlue2"]
     PROPS[_pid]["static_modules"] = PROPS[_pid]["static_modules"] + ["DecProofs.Static.Translated3"]
 
+# the text entry points (wrappers around the untranslated string routine, which they take as a parameter): frame, FromStr iff, totality
+for _pid in ("C04", "C14", "C15"):
+    PROPS[_pid]["theorem_modules"] = PROPS[_pid]["theorem_modules"] + ["DecProofs.Properties.C14GenTextGlue"]
+for _pid in ("C04", "C14"):
+    PROPS[_pid]["static_modules"] = PROPS[_pid]["static_modules"] + ["DecProofs.Static.Translated3"]
+
 # secondary build configuration of C02 (thorough tier): the tininess-after-rounding cargo feature
 PROPS["C02"]["feature_configs"] = [{"feature": "tiny_after", "judge_tiny_after": True}]
 
